@@ -1,7 +1,7 @@
 (* Single entry point val -> val for every modelled function; used by the extracted
    runner and by the generated in-Coq case files. *)
 From Coq Require Import ZArith List Bool.
-From Gabi Require Import Val ModArith Bytes Der Sha256 HashTool GoSem ParamsDef ZkProof Keys RangeProof NonRev Core CL Prover RangeSound Revocation NonRevProver.
+From Gabi Require Import Val ModArith Bytes Der Sha256 HashTool GoSem ParamsDef ZkProof Keys RangeProof NonRev Core CL Prover RangeSound Revocation NonRevProver Keyshare.
 Import ListNotations.
 Open Scope Z_scope.
 
@@ -348,6 +348,24 @@ Definition d_nr_build (v : val) : val := ret (
   | _ => None
   end).
 
+Definition d_keyshare_response (v : val) : val := ret (
+  match v with
+  | VL [secret; rnd; committed; recomputed; req; keys] =>
+    do secret <- as_Z secret; do rnd <- as_Z rnd; do committed <- as_LZ committed; do recomputed <- as_LZ recomputed;
+    do req <- as_ks_request req; do keys <- as_map as_pk keys;
+    Some (of_outcome (fun cs => VL [VZ (fst cs); VZ (snd cs)]) (keyshare_response secret rnd committed recomputed req keys))
+  | _ => None
+  end).
+
+Definition d_ks_commitments (v : val) : val := ret (
+  match v with
+  | VL [secret; rnd; keys] =>
+    do secret <- as_Z secret; do rnd <- as_Z rnd; do keys <- (match keys with VL l => map_opt as_pk l | _ => None end);
+    Some (VL [of_outcome VZ (ks_rand_length secret keys);
+              of_outcome (fun l => VL (map (fun pq => VL [VZ (fst pq); VZ (snd pq)]) l)) (ks_commitments secret rnd keys)])
+  | _ => None
+  end).
+
 Definition dispatch (fn : Z) (v : val) : val :=
   match fn with
   | 1501 => d_hash_commit v
@@ -379,6 +397,8 @@ Definition dispatch (fn : Z) (v : val) : val :=
   | 1101 => d_nr_commit v
   | 1102 => d_nr_refresh v
   | 1103 => d_nr_build v
+  | 1401 => d_keyshare_response v
+  | 1402 => d_ks_commitments v
   | 1201 => d_proves_statement v
   | 1202 => d_proven_statement v
   | 1204 => d_range_verify v
